@@ -75,6 +75,9 @@ HELPERS = [
     "sktime/series_as_features/base/estimators/interval_based/_tsf.py",
 ]
 METHODS = ("transform", "predict", "predict_proba")
+# module-level functions every estimator reads its input through: analysed like a method, with the
+# first parameter bound to the panel (all flags batch independent, both branches of every flag)
+FUNCTIONS = [("sktime/utils/validation/panel.py", "check_X")]
 
 
 class Reject(Exception):
@@ -2196,11 +2199,40 @@ def analyse_method(index, mod, cls, fn):
     return ("ok", out.raw, deps, sorted(set(it.assumptions + raw_members(out.raw))))
 
 
+def analyse_function(index, mod, fn):
+    it = Interp(index, mod, None, fn.name)
+    params = [a.arg for a in fn.args.args]
+    if not params:
+        return ("no", "signature", [], [])
+    env = {params[0]: panel(("RInput",), 0, None, None)}
+    for pn in params[1:]:
+        env[pn] = P
+    try:
+        rets = it.run_body(fn.body, env)
+        if not rets:
+            raise Reject("L%d: no return value" % fn.lineno)
+        out = rets[0]
+        for r in rets[1:]:
+            out = it.join(out, r, fn)
+        if out.k != "PANEL" or out.iax != 0:
+            raise Reject("L%d: the returned value is not a row-aligned panel (%s)" % (fn.lineno, out.k))
+    except Reject as r:
+        return ("no", str(r.args[0]), [], [])
+    return ("ok", out.raw, [], sorted(set(it.assumptions + raw_members(out.raw))))
+
+
 def extract(repo):
     """-> ordered list of (key, status, raw | reason, deps, assumptions)"""
     index = Index(repo)
     rows = []
     seen = set()
+    for rel, name in FUNCTIONS:
+        mod = index.by_dotted(rel[:-3].replace("/", "."))
+        if mod is None or name not in mod.functions:
+            raise Unsupported("anchored function missing: %s:%s" % (rel, name))
+        status, payload, deps, assume = analyse_function(index, mod, mod.functions[name])
+        rows.append((name, status, payload, deps, assume))
+        seen.add(name)
     for rel in FILES:
         mod = index.mods[rel]
         for cls in mod.tree.body:
